@@ -59,10 +59,15 @@ def _trap(name):
 class SymDT(datetime.datetime):
     """The C level payload is a dummy (2000-01-01 UTC); only comparisons and +/- are symbolic."""
 
-    def __new__(cls, e):
-        self = super().__new__(cls, 2000, 1, 1, tzinfo=UTC)
+    def __new__(cls, e, tz=None):
+        # the tzinfo LABEL is carried by the C level payload; the symbolic value is always the instant (UTC)
+        self = super().__new__(cls, 2000, 1, 1, tzinfo=UTC if tz is None else tz)
         self._e = e if isinstance(e, Lin) else L.lin(e)
         return self
+
+    def _label_offset_us(self):
+        off = self.tzinfo.utcoffset(None)
+        return int(off.total_seconds()) * 10 ** 6 if off is not None else 0
 
     __lt__ = _c("lt")
     __le__ = _c("le")
@@ -75,12 +80,12 @@ class SymDT(datetime.datetime):
     def __add__(self, td):
         if not isinstance(td, (datetime.timedelta, SymTD)):
             return NotImplemented
-        return SymDT(L.add(self._e, _lin(td_us(td))))
+        return SymDT(L.add(self._e, _lin(td_us(td))), self.tzinfo)
     __radd__ = __add__
 
     def __sub__(self, o):
         if isinstance(o, (datetime.timedelta, SymTD)):
-            return SymDT(L.sub(self._e, _lin(td_us(o))))
+            return SymDT(L.sub(self._e, _lin(td_us(o))), self.tzinfo)
         if isinstance(o, datetime.datetime):
             return SymTD(L.sub(self._e, _lin(to_us(o))))
         return NotImplemented
@@ -104,11 +109,21 @@ class SymDT(datetime.datetime):
         return self
 
     def astimezone(self, tz=None):
-        return self
+        # same instant, another label (tz=None would be the process's local zone: kept as is)
+        if tz is None or tz is self.tzinfo:
+            return self
+        return SymDT(self._e, tz)
 
     def replace(self, **kw):
         if set(kw) <= {"tzinfo"}:
-            return self
+            tz = kw.get("tzinfo", self.tzinfo)
+            if tz is None or tz is self.tzinfo:
+                return self
+            # the wall-clock reading is kept and relabelled: the instant moves by the difference of the offsets
+            new_off = tz.utcoffset(None)
+            new_off = int(new_off.total_seconds()) * 10 ** 6 if new_off is not None else 0
+            delta = self._label_offset_us() - new_off
+            return SymDT(self._e if delta == 0 else L.add(self._e, Lin({}, delta)), tz)
         return _trap("replace")(self)
 
 
